@@ -1,0 +1,10 @@
+//go:build verif
+
+package misc
+
+// Verification-only exports (build tag "verif"): the length-generic mnemonic
+// codec, so that the harness in /verif can enumerate whole 3-byte blocks.
+
+func VerifBinToMnemonic(input []uint8) string { return binToMnemonic(input) }
+
+func VerifMnemonicToBin(mnemonic string) []uint8 { return mnemonicToBin(mnemonic) }
